@@ -1,6 +1,7 @@
 import ScVerif.Base.Line
 import ScVerif.C14.Acceptor
 import ScVerif.C14.CompositeDrv
+import ScVerif.C14.GauDrv
 /-! Driver handler for C14 (stateful): one observation per line, answers the acceptor's verdict. -/
 namespace ScVerif.C14
 open ScVerif.Line
@@ -56,6 +57,9 @@ structure DrvState where
   sim : CSim := {}
 
 def handleAll (s : DrvState) (toks : List String) : DrvState × String :=
+  match gauHandle toks with
+  | some out => (s, out)
+  | none =>
   match chandle s.sim toks with
   | some (c, out) => ({ s with sim := c }, out)
   | none =>
